@@ -180,16 +180,41 @@ class C06(common.Prop):
         return any(s[0] == "mutate" for s in case["steps"]) or len(set(s[1] for s in case["steps"] if s[0] == "read")) > 1
 
     # ---------------------------------------------------------------- implementation
-    def _read(self, fname, kind, args):
+    def _read(self, fname, kind, args, fresh=False):
         from pose_format import Pose
         import io
-        data = bytes(self.files[fname])
+        # the caller keeps ONE bytes object per file and reads it again and again (fresh=True: a new copy, what a fresh process holds)
+        data = bytes(self.files[fname]) if fresh else self.shared.setdefault(fname, bytes(self.files[fname]))
         a = {k: v for k, v in args.items()}
         return Pose.read(data if kind == "bytes" else io.BytesIO(data), **a)
+
+    def torch_scribble(self, fname):
+        """an earlier caller read the same bytes object into a PyTorch body and edited the tensors in place"""
+        from pose_format import Pose
+        from pose_format.torch.pose_body import TorchPoseBody
+        import warnings
+        data = self.shared.setdefault(fname, bytes(self.files[fname]))
+        with warnings.catch_warnings():
+            warnings.simplefilter("ignore")
+            try:
+                p = Pose.read(data, pose_body=TorchPoseBody)
+            except Exception:
+                return
+            for f in (lambda: p.body.data.tensor.mul_(0).add_(7), lambda: p.body.confidence.zero_(), lambda: p.body.data.mask.fill_(False)):
+                try:
+                    f()
+                except Exception:
+                    pass
 
     def run_impl(self, case):
         from pose_format.pose_header import PoseHeaderCache
         PoseHeaderCache.clear_cache()
+        self.shared = {}
+        if (len(case["steps"]) + len(case["probe"][0])) % 3 == 0 and case["probe"][0] != "A01":
+            for fname in sorted({st[1] for st in case["steps"] if st[0] == "read"} | {case["probe"][0]}):
+                if fname != "A01":
+                    self.torch_scribble(fname)
+            PoseHeaderCache.clear_cache()
         results = []       # (pose, snapshot after creation / own mutations, mutated?)
         mut_dumps = []     # per step: the mutated pose's dump right after a mutation (None otherwise)
         ncomps = []        # per result: number of component objects when it was handed out
@@ -220,16 +245,17 @@ class C06(common.Prop):
                 results[st[1]][1] = pg.dump_pose(results[st[1]][0])
                 mut_dumps[-1] = results[st[1]][1]
 
-        def safe_probe():
+        def safe_probe(fresh=False):
             try:
-                pp = self._read(*case["probe"])
+                pp = self._read(*case["probe"], fresh=fresh)
                 return pp, pg.dump_pose(pp)
             except Exception as e:
                 return None, ["err"]
         probe, probe_dump = safe_probe()
-        # what the same read returns in a fresh process state
+        # what the same read returns in a fresh process state (empty memo, a new copy of the bytes)
         PoseHeaderCache.clear_cache()
-        fresh = safe_probe()[1]
+        fresh = safe_probe(fresh=True)[1]
+        touched = [n for n, b in self.shared.items() if b != bytes(self.files[n])]
         # every earlier result must still be what it was after its own last mutation
         changed = [i for i, (p, snap, _) in enumerate(results) if p is not None and pg.dump_pose(p) != snap]
         # aliasing graph
@@ -248,7 +274,7 @@ class C06(common.Prop):
                         np.shares_memory(np.asarray(bi.confidence), np.asarray(bj.confidence)) or \
                         (mi is not ma.nomask and mj is not ma.nomask and np.shares_memory(mi, mj)):
                     shared.append([i, j, "body"])
-        case["_impl"] = {"probe": probe_dump, "fresh": fresh, "changed": changed, "shared": shared}
+        case["_impl"] = {"probe": probe_dump, "fresh": fresh, "changed": changed, "shared": shared, "touched": touched}
         case["_mut_dumps"] = mut_dumps
         case["_impl_handed"] = [r[0] is not None for r in results]
         case["_ncomps"] = ncomps
@@ -378,6 +404,9 @@ class C06(common.Prop):
     # ---------------------------------------------------------------- oracle
     def oracle(self, case):
         r = case["_impl"]
+        if r.get("touched"):
+            return {"what": "the caller's byte strings %s were modified (a result of an earlier read shares memory with its source)" % r["touched"],
+                    "kind": "source-modified"}
         if r["probe"] != r["fresh"]:
             if isinstance(r["probe"], list) or isinstance(r["fresh"], list):
                 return {"what": "the same read raises in one memo state and returns a pose in another", "kind": "history-dependent", "fields": ["raises"]}
